@@ -326,8 +326,8 @@ func runC08() int {
 	ps := &pool.Pool{Handler: "c07s", N: 16, Timeout: 120 * time.Second, MemMB: 6144, MaxTasks: 1}
 	var stasks [][]byte
 	for _, sc := range scripts(tier) {
-		if sc.Family == "remove-node" {
-			continue
+		if sc.Family != "stale-leader-tail" && sc.Family != "follower-lag" {
+			continue // the membership families belong to C07
 		}
 		b, _ := json.Marshal(scriptTask{Script: sc})
 		stasks = append(stasks, b)
